@@ -290,6 +290,22 @@ class Prov:
         else:
             env.write(dl, G, self._read_operand(body, env, op))
 
+    def _pts_closure(self, env, l, limit=64):
+        """cells reachable from local `l` through chains of pointer-holding locals (a reference to an
+        iterator over an array of references ... to the cells finally written)"""
+        out = set()
+        work = [l]
+        seen = {l}
+        while work and len(out) < limit:
+            x = work.pop()
+            for (pl, pp) in env.pts.get(x, ()):
+                if (pl, pp) not in out:
+                    out.add((pl, pp))
+                if not pp and pl not in seen:
+                    seen.add(pl)
+                    work.append(pl)
+        return out
+
     def _targets(self, body, env, place):
         """(local, path) cells a write to `place` reaches (through references)."""
         l = place["l"]
@@ -300,7 +316,7 @@ class Prov:
                 nxt = []
                 for (cl, cp) in cur:
                     nxt.append((cl, cp))
-                    for (pl, pp) in env.pts.get(cl, ()) if not cp else ():
+                    for (pl, pp) in (self._pts_closure(env, cl) if not cp else ()):
                         nxt.append((pl, pp))
                 cur = nxt
             elif isinstance(e, dict) and "f" in e:
@@ -349,7 +365,8 @@ class Prov:
                 self._copy_operand(body, env, tl, tp, rv["op"])
             # pointer copies keep their points-to set
             pl = self._op_place(rv["op"])
-            if pl is not None and not pl["p"] and not lhs["p"]:
+            if pl is not None and not lhs["p"] and all(isinstance(e, dict) and ("f" in e or "dc" in e) for e in pl["p"]):
+                # (a pointer taken out of a container of pointers - `(opt as Some).0` - may be any of them)
                 pts = env.pts.get(pl["l"])
                 if pts:
                     cur = env.pts.setdefault(lhs["l"], set())
@@ -388,6 +405,15 @@ class Prov:
             names = rv.get("fields")
             ops = rv["ops"]
             agg = rv.get("agg")
+            if not lhs["p"] and agg in ("array", "tuple", "adt"):
+                # a container of pointers points where they point
+                for op in ops:
+                    opl = self._op_place(op)
+                    if opl is not None and not opl["p"] and env.pts.get(opl["l"]):
+                        cur = env.pts.setdefault(lhs["l"], set())
+                        if not env.pts[opl["l"]] <= cur:
+                            cur |= env.pts[opl["l"]]
+                            env.changed = True
             for idx, op in enumerate(ops):
                 if agg == "array":
                     fname = "[]"
